@@ -48,9 +48,55 @@ def models_for(plugin, work, thorough):
     if plugin == "testdata":
         a = docs.slice_model(com, methods=("shutdown", "exit", "textDocument/didOpen", "textDocument/willSaveWaitUntil"), names=())
         b = docs.slice_model(com, methods=("shutdown", "textDocument/didOpen", "workspace/didChangeWorkspaceFolders"), names=())
+    b = evolve_for_history(b)
     pa = docs.write(a, os.path.join(work, "A.json"))
     pb = docs.write(b, os.path.join(work, "B.json"))
-    return {"A": pa, "B": pb}
+    px = docs.write(extension_model(a), os.path.join(work, "X.json"))
+    # a model *list*: the first model extended in order by a second file with several new declarations
+    return {"A": [pa], "B": [pb], "AX": [pa, px]}
+
+
+def extension_model(base):
+    """A second model file: only new declarations (4 structures, 3 enumerations, 2 notifications, 2 requests)
+    that refer to declarations of the first file."""
+    S = lambda n: {"kind": "base", "name": n}      # noqa: E731
+    doc = {"metaData": dict(base["metaData"]), "requests": [], "notifications": [], "structures": [], "enumerations": [], "typeAliases": []}
+    for i, nm in enumerate(["Zeta", "Alpha", "Mu", "Beta"]):
+        doc["structures"].append({"name": "VerifExt%sParams" % nm, "properties": [{"name": "value%d" % i, "type": S("string")},
+                                                                                 {"name": "kind", "type": {"kind": "reference", "name": "VerifExt%sKind" % ["One", "Two", "Three"][i % 3]}, "optional": True}]})
+    for nm in ["Two", "One", "Three"]:
+        doc["enumerations"].append({"name": "VerifExt%sKind" % nm, "type": S("string"), "values": [{"name": "first", "value": "first"}, {"name": "second", "value": "second"}]})
+    doc["notifications"].append({"method": "verifExt/zeta", "typeName": "VerifExtZetaNotification", "params": {"kind": "reference", "name": "VerifExtZetaParams"}, "messageDirection": "clientToServer"})
+    doc["notifications"].append({"method": "verifExt/alpha", "typeName": "VerifExtAlphaNotification", "params": {"kind": "reference", "name": "VerifExtAlphaParams"}, "messageDirection": "serverToClient"})
+    doc["requests"].append({"method": "verifExt/mu", "typeName": "VerifExtMuRequest", "params": {"kind": "reference", "name": "VerifExtMuParams"}, "result": S("null"), "messageDirection": "clientToServer"})
+    doc["requests"].append({"method": "verifExt/beta", "typeName": "VerifExtBetaRequest", "params": {"kind": "reference", "name": "VerifExtBetaParams"}, "result": {"kind": "reference", "name": "VerifExtBetaParams"}, "messageDirection": "both"})
+    return doc
+
+
+def evolve_for_history(doc):
+    """Model B is not only smaller than A: structures that others extend / mix in gain a property and a
+    new structure is mixed into an existing one, so that anything remembered from a run on A (a name
+    index, a flattening cache) gives a visibly wrong result for B."""
+    import copy
+    d = copy.deepcopy(doc)
+    names = {s["name"]: s for s in d["structures"]}
+    for base, prop in (("WorkDoneProgressOptions", {"name": "verifTitle", "type": {"kind": "base", "name": "string"}, "optional": True}),
+                       ("WorkDoneProgressParams", {"name": "verifNote", "type": {"kind": "base", "name": "string"}, "optional": True}),
+                       ("TextDocumentPositionParams", {"name": "verifFlag", "type": {"kind": "base", "name": "boolean"}, "optional": True}),
+                       ("TextDocumentIdentifier", {"name": "verifTag", "type": {"kind": "base", "name": "uinteger"}, "optional": True})):
+        if base in names:
+            names[base]["properties"].append(prop)
+    # generic part (also for the small slices): every third structure gains an optional property and the
+    # first structure with properties gets a new mixin
+    for i, st in enumerate(list(d["structures"])):
+        if i % 3 == 0 and not any(p["name"] == "verifHist" for p in st["properties"]):
+            st["properties"].append({"name": "verifHist", "type": {"kind": "base", "name": "string"}, "optional": True})
+    d["structures"].append({"name": "VerifHistoryMixin", "properties": [{"name": "verifMixed", "type": {"kind": "base", "name": "string"}, "optional": True}]})
+    for st in d["structures"]:
+        if st["properties"] and st["name"] != "VerifHistoryMixin" and st["name"] not in ("LSPObject",):
+            st.setdefault("mixins", []).append({"kind": "reference", "name": "VerifHistoryMixin"})
+            break
+    return d
 
 
 def place(root, files):
@@ -100,7 +146,7 @@ def _plugin_task(args):
                 o, t = os.path.join(work, "ref_o"), os.path.join(work, "ref_t")
                 os.makedirs(o), os.makedirs(t)
                 prepare_test_dir(plugin, t)
-                r = run_cli(plugin, o, t, [mp_], hashseed="0")
+                r = run_cli(plugin, o, t, mp_, hashseed="0")
                 out["cli_runs"] += 1
                 if r.returncode != 0:
                     out["bad"].append(("reference-fails", plugin, "reference run of %s on model %s exits %d: %s" % (plugin, mk, r.returncode, (r.stderr or r.stdout)[-200:]), {"history": ["Fresh", "Run(%s)" % mk]}))
@@ -112,8 +158,10 @@ def _plugin_task(args):
                             for f in files:
                                 with open(os.path.join(d, f), "rb") as fh:
                                     base_uuid_like |= set(UUID_RE.findall(fh.read()))
-                    with open(mp_, "rb") as fh:
-                        in_model = set(UUID_RE.findall(fh.read()))
+                    in_model = set()
+                    for one in mp_:
+                        with open(one, "rb") as fh:
+                            in_model |= set(UUID_RE.findall(fh.read()))
                     if base_uuid_like - in_model:
                         out["bad"].append(("uuid-leak", plugin, "uuid-shaped strings not present in the model appear in the output of %s: %s" % (plugin, sorted(base_uuid_like - in_model)[:2]), {"history": ["Fresh", "Run(%s)" % mk]}))
                 rm(o), rm(t)
@@ -129,7 +177,7 @@ def _plugin_task(args):
                 o, t = os.path.join(work, "hs_o"), os.path.join(work, "hs_t")
                 os.makedirs(o), os.makedirs(t)
                 prepare_test_dir(plugin, t)
-                r = run_cli(plugin, o, t, [mp_], hashseed=hs)
+                r = run_cli(plugin, o, t, mp_, hashseed=hs)
                 out["cli_runs"] += 1
                 d = owned_digest(o, t)
                 rm(o), rm(t)
@@ -139,7 +187,7 @@ def _plugin_task(args):
                                        {"history": ["Fresh", "Run(%s)" % mk], "hashseed": hs}))
         # ---- in-process histories (explicit-state BFS, state = digest of the directories)
         events = [("Run", mk, sm) for mk in ("A", "B") for sm in (SEAMS if thorough else SEAMS[:2])]
-        events += [("StaleOwned",), ("StaleForeign",), ("Fresh",)]
+        events += [("StaleOwned",), ("CorruptOwned",), ("StaleForeign",), ("Fresh",)]
         maxlen = 3
         if plugin in ("dotnet", "testdata") and not thorough:
             maxlen = 2
@@ -162,6 +210,17 @@ def _plugin_task(args):
                     last = None
                 elif ev[0] == "StaleOwned":
                     place(o, STALE_OWNED[plugin])
+                    # ... and one file with exactly a generated name (taken from the reference run on A) but other bytes
+                    real = sorted(k[4:] for k in ref["A"] if k.startswith("out/"))
+                    if real:
+                        place(o, {real[0]: "stale bytes under a generated name\n", real[-1]: "{}"})
+                    last = None
+                elif ev[0] == "CorruptOwned":
+                    # a file with exactly a generated name but different bytes (interrupted run, hand edit)
+                    owned = sorted(k for k in digest_tree(o) if k not in FOREIGN)
+                    for rel in owned[:1] + owned[-1:]:
+                        with open(os.path.join(o, rel), "w", encoding="utf-8") as fh:
+                            fh.write("truncated")
                     last = None
                 elif ev[0] == "StaleForeign":
                     place(o, FOREIGN)
@@ -170,7 +229,7 @@ def _plugin_task(args):
                     last = None
                 else:
                     _, mk, (smode, utag) = ev
-                    err = run_inprocess(plugin, o, t, [models[mk]], set_mode=smode, uuid_stream=streams[utag] if utag else None)
+                    err = run_inprocess(plugin, o, t, models[mk], set_mode=smode, uuid_stream=streams[utag] if utag else None)
                     out["runs"] += 1
                     last = (mk, err)
             return o, t, foreign, last
@@ -258,7 +317,7 @@ def run(ctx):
         "traces_validated_against_impl": tot["runs"] + tot["cli_runs"], "evaluations": tot["runs"] + tot["cli_runs"],
         "distinct_nontrivial": tot["histories"],
         "rule": "per plugin: explicit-state BFS over histories of events {Run(model A|B, set order asc|desc|rot, uuid stream A|B|real), StaleOwned, "
-                "StaleForeign, Fresh} up to the stated length, every Run through the real in-process entry point generator.__main__.main with the "
+                "CorruptOwned (an owned file overwritten with other bytes), StaleForeign, Fresh} up to the stated length, every Run through the real in-process entry point generator.__main__.main with the "
                 "seams injected; state = digest of output+test directory (de-duplicated); after every Run the owned files must be byte-identical "
                 "to the reference (fresh directory, fresh process, PYTHONHASHSEED=0), foreign files untouched, no injected uuid in any output "
                 "byte; plus real CLI runs in new processes for further hash seeds and two reference runs compared with each other",
